@@ -147,6 +147,7 @@ func applyStringConstraints(constraints *validate.FieldRules, schema *base.Schem
 		for _, value := range stringConstraints.GetIn() {
 			schema.Enum = append(schema.Enum, &yaml.Node{
 				Kind:  yaml.ScalarNode,
+				Tag:   "!!str", // "123", "true" or "null" written plainly would be read back as another type
 				Value: value,
 			})
 		}
@@ -157,6 +158,7 @@ func applyStringConstraints(constraints *validate.FieldRules, schema *base.Schem
 		val := stringConstraints.GetConst()
 		schema.Const = &yaml.Node{
 			Kind:  yaml.ScalarNode,
+			Tag:   "!!str",
 			Value: val,
 		}
 	}
